@@ -528,7 +528,7 @@ def _tree_task(task, col):
     cfg, prefix = task
     alphabet = cfg["alphabet"]
     stack = [list(prefix)]
-    budget = cfg.get("max_executions_per_shard", 150000)
+    budget = cfg.get("max_executions_per_shard", 20000)
     n = 0
     while stack:
         script = stack.pop()
